@@ -92,10 +92,16 @@ class BuckGophermapHandler(BaseHandler):
                         # If we're using links on THIS server, try to fill
                         # it in for gopher+.
                         # Only look at paths a client could request itself.
+                        # ("URL:x" is not one: root and selector are joined
+                        # as text, it would name a neighbour of the root.)
                         probe = BaseHandler(
                             selector, "", self.protocol, self.config, None, self.vfs
                         )
-                        if probe.isrequestsecure() and self.vfs.exists(selector):
+                        if (
+                            selector.startswith("/")
+                            and probe.isrequestsecure()
+                            and self.vfs.exists(selector)
+                        ):
                             entry.populatefromvfs(self.vfs, selector)
                     self.entries.append(entry)
                 else:  # Info line
